@@ -84,6 +84,53 @@ Theorem C17_value_roundtrip :
     process_value_from_get mac s k v (prepare_value_for_put mac s k v x) = Some x.
 Proof. exact get_roundtrip. Qed.
 
+(** ** Records coming back from the store (PrivClient::get, conflicts of PrivClient::put)
+
+    The version on the wire is an i64.  Whatever the sign of the version and whatever the length
+    of the value, a record is handed back only after process_value_from_get accepted it: with its
+    own 32-byte tag under the record secret, which the store never has. *)
+Theorem C17_returned_records_are_tagged :
+  forall mac hs kvs out,
+    remove_and_check_hmacs mac hs kvs = Some out ->
+    Forall2 (fun (i o : wrecord) =>
+               let '(k, v, st) := i in let '(k', v', y) := o in
+               k' = k /\ v' = v /\
+               exists t, st = y ++ t /\ length t = 32%nat /\ t = value_tag mac hs k (wire_version v) y)
+            kvs out.
+Proof. exact open_every_record_tagged. Qed.
+Print Assumptions C17_returned_records_are_tagged.
+
+Theorem C17_short_record_never_returned :
+  forall mac hs k v st r,
+    (length st < 32)%nat -> remove_and_check_hmacs mac hs ((k, v, st) :: r) = None.
+Proof. exact open_short_refused. Qed.
+
+(** Binding over signed versions: a record handed back under (k, v) whose tag the signer made for
+    (k0, v0, x0), keys of one length, both versions any i64: it is exactly what the signer wrote.
+    In particular a record presented at a negative (never written) version is refused. *)
+Theorem C17_signed_version_binding :
+  forall mac, InjectiveMac mac ->
+  forall hs k v st y t k0 v0 x0,
+    is_i64 v -> is_i64 v0 ->
+    process_value_from_get mac hs k (wire_version v) st = Some y ->
+    st = y ++ t -> length t = 32%nat -> t = value_tag mac hs k0 (wire_version v0) x0 ->
+    length k0 = length k -> k = k0 /\ v = v0 /\ y = x0.
+Proof. exact open_binding. Qed.
+Print Assumptions C17_signed_version_binding.
+
+(** non-vacuity: under an injective MAC, bytes of the store's choice at version -1 / i64::MIN are
+    refused, a value the signer wrote at version 3 is refused at version -1, and opens at 3 *)
+Example C17_negative_version_nonvacuous :
+  let x := repeat 9 23 in
+  let stored := prepare_value_for_put toy_mac [4] [107] 3 x in
+  remove_and_check_hmacs toy_mac [4] [([107], (-1)%Z, repeat 66 40)] = None /\
+  remove_and_check_hmacs toy_mac [4] [([107], (-9223372036854775808)%Z, repeat 66 32)] = None /\
+  remove_and_check_hmacs toy_mac [4] [([107], (-1)%Z, [])] = None /\
+  remove_and_check_hmacs toy_mac [4] [([107], (-1)%Z, stored)] = None /\
+  remove_and_check_hmacs toy_mac [4] [([107], 3%Z, stored)] = Some [([107], 3%Z, x)] /\
+  wire_version (-1) = 18446744073709551615.
+Proof. vm_compute. repeat split. Qed.
+
 (** ** Record sets under the shared tag (client / server / read-response HMAC) *)
 
 (** Two different (nonce, record list) inputs that are not framed differently never share a
